@@ -190,10 +190,11 @@ def bindBidExp (bid exp : Param) : Option (String × Int) :=
   | some b, some e => if b = "" ∨ e = "" then none else (parseInt64 e).map (fun v => (b, v))
   | _, _ => none
 
-/-- remove every connection made under booking `b` (what the crossbar does on a deny notification,
-    followed by each connection's own tear-down) -/
+/-- remove every connection made under booking `b` (what the crossbar does on a deny notification:
+    it closes each such connection's cancel channel, and each connection then tears itself down) -/
 def dropBooking (h : Hub.Hub) (b : String) : Hub.Hub :=
-  (h.members.filter (fun c => c.bid == b)).foldl (fun h c => Hub.step h (.unregister c.name)) h
+  { h with members := h.members.filter (fun c => c.bid != b),
+           gone := h.gone ++ h.members.filter (fun c => c.bid == b) }
 
 /-- POST /bids/deny -/
 def denyReq (cfg : Config) (s : St) (cred : Cred) (bid exp : Param) : St × Resp :=
